@@ -458,7 +458,11 @@ Example unclassified_site_rejected :
   classified {| Gen.C08.s_kind := "OsCall"; Gen.C08.s_pkg := "x/evm/keeper"; Gen.C08.s_func := "f";
                 Gen.C08.s_expr := "os.Getenv"; Gen.C08.s_ord := 0; Gen.C08.s_auto := ""; Gen.C08.s_class := "open:todo" |} = false /\
   classified {| Gen.C08.s_kind := "MapRange"; Gen.C08.s_pkg := "x/evm/keeper"; Gen.C08.s_func := "f";
-                Gen.C08.s_expr := "m"; Gen.C08.s_ord := 0; Gen.C08.s_auto := ""; Gen.C08.s_class := "lemma:no_such_theorem" |} = false.
+                Gen.C08.s_expr := "m"; Gen.C08.s_ord := 0; Gen.C08.s_auto := ""; Gen.C08.s_class := "lemma:no_such_theorem" |} = false /\
+  classified {| Gen.C08.s_kind := "MapRange"; Gen.C08.s_pkg := "x/evm/keeper"; Gen.C08.s_func := "f";
+                Gen.C08.s_expr := "m"; Gen.C08.s_ord := 0; Gen.C08.s_auto := "some-new-rule"; Gen.C08.s_class := "" |} = false /\
+  classified {| Gen.C08.s_kind := "MapRange"; Gen.C08.s_pkg := "x/evm/keeper"; Gen.C08.s_func := "f";
+                Gen.C08.s_expr := "m"; Gen.C08.s_ord := 0; Gen.C08.s_auto := "collect-then-sort"; Gen.C08.s_class := "" |} = true.
 Proof. repeat split; reflexivity. Qed.
 
 (** The handler model has the shape the source has now. *)
